@@ -37,6 +37,8 @@ type JobDef struct {
 	Note    string    `json:"note,omitempty"`
 	// MayBeVacuous: some parameter tuples are expected to have no complete path
 	MayBeVacuous bool `json:"may_be_vacuous,omitempty"`
+	// ReplaySamples: how many passing samples of this job definition are replayed natively (default 2)
+	ReplaySamples int `json:"replay_samples,omitempty"`
 }
 
 type CheckDef struct {
@@ -270,6 +272,8 @@ func cmdCheck(args []string) int {
 	var samples []map[string]interface{}
 	vacuous := []string{}
 	perHarness := map[string]map[string]int{}
+	samplesPerHarness := map[string]int{}
+	replayWanted := map[string]int{}
 	for i, r := range results {
 		if r == nil {
 			continue
@@ -305,9 +309,15 @@ func cmdCheck(args []string) int {
 		if r.PathsDone == 0 && len(r.Violations) == 0 && len(r.Inconclusive) == 0 && !items[i].def.MayBeVacuous {
 			vacuous = append(vacuous, fmt.Sprintf("%s%v", r.Spec.Harness, r.Spec.Params))
 		}
-		for _, s := range r.Samples {
-			if len(samples) < 12 {
+		for si, s := range r.Samples {
+			// keep the first sample of up to 4 jobs per harness, so that the natively
+			// replayed samples span the harnesses of the check
+			if si == 0 && samplesPerHarness[r.Spec.Harness] < max(4, items[i].def.ReplaySamples) && len(samples) < 48 {
+				samplesPerHarness[r.Spec.Harness]++
 				samples = append(samples, map[string]interface{}{"harness": r.Spec.Harness, "params": r.Spec.Params, "witness_inputs": s})
+				if items[i].def.ReplaySamples > replayWanted[r.Spec.Harness] {
+					replayWanted[r.Spec.Harness] = items[i].def.ReplaySamples
+				}
 			}
 		}
 	}
@@ -396,11 +406,16 @@ func cmdCheck(args []string) int {
 	// translator validation: passing samples must also pass natively
 	if !*noReplaySamples {
 		cnt := 0
+		replayedPerHarness := map[string]int{}
 		for _, s := range samples {
-			if cnt >= 6 {
-				break
-			}
 			h := s["harness"].(string)
+			if cnt >= 10 && replayWanted[h] == 0 {
+				continue
+			}
+			if replayedPerHarness[h] >= max(2, replayWanted[h]) {
+				continue
+			}
+			replayedPerHarness[h]++
 			wi := s["witness_inputs"].(map[string]interface{})
 			v := &Violation{Harness: h, Params: s["params"].([]int64), Label: "__sample", Kind: "sample", Inputs: map[string]interface{}{}}
 			for k, x := range wi {
@@ -497,18 +512,18 @@ func cmdCheck(args []string) int {
 				"total": totQueries, "sat": totSat, "unsat": totUnsat, "unknown": totUnknown,
 				"assertions_discharged_unsat": A.checked, "assertions_syntactically_true": A.trivial,
 			},
-			"solver":          *solver,
-			"solver_s":        solverTime.Seconds(),
-			"load_s":          prog.loadTime.Seconds(),
-			"replay_build_s":  rp.BuildTime.Seconds(),
-			"stubs_hit":       prog.stubsSeen,
-			"opaque_calls":    prog.opaqueSeen,
-			"per_harness":     perHarness,
-			"inconclusive":    inconc,
-			"vacuous_jobs":    vacuous,
-			"discrepancies":   discrepancies,
-			"known_findings":  knownLines(outLines),
-			"violation_count": len(violations),
+			"solver":                                *solver,
+			"solver_s":                              solverTime.Seconds(),
+			"load_s":                                prog.loadTime.Seconds(),
+			"replay_build_s":                        rp.BuildTime.Seconds(),
+			"stubs_hit":                             prog.stubsSeen,
+			"opaque_calls":                          prog.opaqueSeen,
+			"per_harness":                           perHarness,
+			"inconclusive":                          inconc,
+			"vacuous_jobs":                          vacuous,
+			"discrepancies":                         discrepancies,
+			"known_findings":                        knownLines(outLines),
+			"violation_count":                       len(violations),
 			"counterexamples_not_replayed_over_cap": skippedReplays,
 		},
 	}
